@@ -21,9 +21,11 @@ TraceInit == /\ tid \in 1..Len(Batch) /\ l = 1 /\ fails = {} /\ drift = {}
 
 Step == /\ l <= Len(T.events)
         /\ LET e == T.events[l] IN
-             /\ Apply(e.op, e.arg)
-             /\ fails' = IF Holds(a, b, e.op, e.arg, e.res, T.exact = 1) THEN fails ELSE fails \cup {<<l, e.op>>}
-             /\ drift' = IF e.res = res' THEN drift ELSE drift \cup {<<l, e.op>>}
+             IF e.op = "move"
+             THEN MoveA(e.arg[1], e.arg[2]) /\ UNCHANGED <<fails, drift>>
+             ELSE /\ Apply(e.op, e.arg)
+                  /\ fails' = IF Holds(a, b, e.op, e.arg, e.res, T.exact = 1, T.small = 1) THEN fails ELSE fails \cup {<<l, e.op>>}
+                  /\ drift' = IF e.res = res' THEN drift ELSE drift \cup {<<l, e.op>>}
         /\ l' = l + 1 /\ UNCHANGED <<pc, tid>>
 
 Done == /\ l = Len(T.events) + 1
